@@ -206,8 +206,8 @@ func H05_error() {
 		// Read that wrongly serves bytes from them is visible even though NONE makes both buffers carry equal bytes
 		for k := JR; k < 2*JR; k++ {
 			b := r.buffers[k].Buf
-			for i := 0; i < len(b) && i < 2*vhB; i += 64 {
-				b[i] ^= 0xFF
+			for i := 0; i < len(b) && i < vhB; i += 128 {
+				b[i] = 0xAA
 			}
 		}
 		if err == stdio.EOF && n == 0 {
